@@ -510,7 +510,7 @@ def judgeStep (js : JSt) (k : Nat) (op out : String) : Except String JSt :=
     | some ls, some cs => if out = "ok" then .ok { js with series := js.series ++ [(ls, cs)] } else .ok js
     | _, _ => .ok js
   | ["iclose"] =>
-    if out.startsWith "ok " then .ok js else .error s!"violation index-unreadable op={k} got={out.take 40}"
+    if out.startsWith "err" then .error s!"violation index-unreadable op={k} got={out.take 40}" else .ok js
   | ["rsyms"] =>
     if out ≠ "ok " ++ hexList js.syms then .error s!"violation readback-symbols op={k}" else .ok js
   | ["rser", i] =>
